@@ -169,6 +169,7 @@ type gnode struct {
 	rid  uint64
 	arr  uint64
 	kids []uint64
+	ino  [][2]uint64 // inode chain: (identity code, children array id)
 }
 
 type groot struct {
@@ -183,6 +184,7 @@ type grapher struct {
 	nodes  []gnode
 	roots  []groot
 	rid    map[uintptr]uint64
+	ino    map[uintptr]uint64 // inode object -> 8 * (id of the first node it was reached from) + position
 }
 
 // the hash of Heap2.ghash
@@ -216,6 +218,10 @@ func (g *grapher) hash() uint64 {
 			h = hmix(h, 0)
 		}
 		h = hlist(hmix(h, n.arr), n.kids)
+		h = hmix(h, uint64(len(n.ino)))
+		for _, p := range n.ino {
+			h = hmix(hmix(h, p[0]), p[1])
+		}
 	}
 	return h
 }
@@ -238,6 +244,14 @@ func (g *grapher) term() string {
 		rt := "None"
 		if n.leaf {
 			rt = "(Some (" + hx.Bytes(n.pat) + ", " + fmt.Sprint(n.rid) + "))"
+		}
+		if len(n.ino) > 0 {
+			ps := make([]string, len(n.ino))
+			for j, q := range n.ino {
+				ps[j] = fmt.Sprintf("(%d, %d)", q[0], q[1])
+			}
+			nodes[i] = fmt.Sprintf("mkGI %d %s %s %d [%s] [%s]", n.id, hx.Bytes(n.key), rt, n.arr, nums(n.kids), strings.Join(ps, ";"))
+			continue
 		}
 		nodes[i] = fmt.Sprintf("mkG %d %s %s %d [%s]", n.id, hx.Bytes(n.key), rt, n.arr, nums(n.kids))
 	}
@@ -267,17 +281,26 @@ func (g *grapher) visit(v *fox.VerifNode) uint64 {
 	id := g.nc
 	g.nid[v.Addr] = id
 	aid := g.arr(v.ChildrenAddr)
+	var ino [][2]uint64
+	for in, k := v.Inode, uint64(1); in != nil; in, k = in.Inode, k+1 {
+		code, ok := g.ino[in.Addr]
+		if !ok {
+			code = 8*id + k
+			g.ino[in.Addr] = code
+		}
+		ino = append(ino, [2]uint64{code, g.arr(in.ChildrenAddr)})
+	}
 	kids := make([]uint64, len(v.Children))
 	for i, c := range v.Children {
 		kids[i] = g.visit(c)
 	}
-	g.nodes = append(g.nodes, gnode{id: id, key: v.Key, leaf: v.Leaf, pat: v.Pattern, rid: g.rid[v.RouteAddr], arr: aid, kids: kids})
+	g.nodes = append(g.nodes, gnode{id: id, key: v.Key, leaf: v.Leaf, pat: v.Pattern, rid: g.rid[v.RouteAddr], arr: aid, kids: kids, ino: ino})
 	return id
 }
 
 // graph builds the canonical graph of the given trees; nf = node ids used by the first nh trees.
 func (w *world) graph(trees []*fox.VerifTree, nh int) (*grapher, uint64) {
-	g := &grapher{nid: map[uintptr]uint64{}, aid: map[uintptr]uint64{}, rid: map[uintptr]uint64{}}
+	g := &grapher{nid: map[uintptr]uint64{}, aid: map[uintptr]uint64{}, rid: map[uintptr]uint64{}, ino: map[uintptr]uint64{}}
 	for r, id := range w.rid {
 		g.rid[fox.VerifRouteAddr(r)] = id
 	}
@@ -564,6 +587,10 @@ func main() {
 		wide := mode < 20
 		deep := mode >= 20 && mode < 45
 		manyMethods := mode >= 45 && mode < 60
+		infix := mode >= 60 && mode < 72
+		if infix {
+			pool = infixPool(rnd)
+		}
 		if deep {
 			// chains of prefixes: most patterns are prefixes or siblings of others, so failed calls (exists / not found)
 			// end on nodes that later operations of the same transaction pass through
@@ -595,7 +622,7 @@ func main() {
 		}
 		w.pats = pool
 		w.methods = []string{"GET", "POST", "FOO", "BAR"}
-		if wide {
+		if wide || infix {
 			w.methods = []string{"GET", "FOO"}
 		}
 		if manyMethods {
@@ -625,6 +652,8 @@ func main() {
 			st.Count("history:deep")
 		case manyMethods:
 			st.Count("history:many-methods")
+		case infix:
+			st.Count("history:infix-catchall")
 		default:
 			st.Count("history:mixed")
 		}
@@ -743,6 +772,29 @@ func main() {
 	fmt.Printf("c03: %d histories\n", cs.Len())
 }
 
+// infixPool: families around infix catch-alls. A node whose key contains one or two infix catch-alls carries a
+// precomputed continuation ("inode") chain that the lookup walk - not the iteration - goes through; the routes
+// below such a node (static, param, deeper) are what a later write adds or removes.
+func infixPool(rnd *hx.Rand) []string {
+	bases := []string{"/files/*{path}/meta", "/a/*{w}/b", "/*{v}/x", "/s/*{a}/m/*{b}/e", "/q/*{a}/{b}/r", "/a*{w}/k",
+		"h.com/f/*{p}/t", "/s/*{a}/m/*{b}", "/{x}/*{w}/c"}
+	var pool []string
+	nb := rnd.Range(1, 3)
+	for i := 0; i < nb; i++ {
+		b := hx.Pick(rnd, bases)
+		pool = append(pool, b)
+		for _, sfx := range []string{"/x", "/y", "/{id}", "/x/deep", "z", "/x/{id}/e", "/"} {
+			if rnd.Pct(55) {
+				pool = append(pool, b+sfx)
+			}
+		}
+	}
+	if rnd.Pct(50) {
+		pool = append(pool, hx.Pick(rnd, []string{"/files/static", "/a/b", "/s/t", "/{x}/y"}))
+	}
+	return pool
+}
+
 // nestedTree draws a nested set of patterns: every inner position has 2-3 edges with distinct first bytes, each
 // edge being a leaf or an inner position again (depth <= 3); some inner positions are routes themselves.
 // Shapes like {P+"a", P+"bx", P+"by"} (a leaf next to a sibling that has children) are the common case.
@@ -786,7 +838,8 @@ func commonPrefixLen(a, b string) int {
 // snapshots are re-observed and the object graph is compared after every event, as everywhere else.
 func nestedHistory(rnd *hx.Rand, st *hx.Stats) (string, string, bool) {
 	w := newWorld(false)
-	prefix := hx.Pick(rnd, []string{"/foo/", "/", "/a/", "/x/y/", "/{p}/", "h.com/", "a.{h}/v/", "/foo"})
+	prefix := hx.Pick(rnd, []string{"/foo/", "/", "/a/", "/x/y/", "/{p}/", "h.com/", "a.{h}/v/", "/foo",
+		"/files/*{path}/meta/", "/s/*{a}/m/*{b}/", "/*{w}/k", "/f/*{p}/t/", "h.com/d/*{p}/"})
 	var pool []string
 	nestedTree(rnd, prefix, 1, &pool)
 	method := hx.Pick(rnd, []string{"GET", "GET", "GET", "POST", "FOO"})
@@ -806,8 +859,13 @@ func nestedHistory(rnd *hx.Rand, st *hx.Stats) (string, string, bool) {
 		below = append(below, q)
 	}
 	w.pats = append(append([]string{}, pool...), below...)
-	if len(w.pats) > 40 {
-		w.pats = w.pats[:40]
+	if len(w.pats) > 60 {
+		// keep every registered pattern and a random part of the patterns a transaction may add
+		for i := len(below) - 1; i > 0; i-- {
+			j := rnd.Intn(i + 1)
+			below[i], below[j] = below[j], below[i]
+		}
+		w.pats = append(append([]string{}, pool...), below[:max(0, 60-len(pool))]...)
 	}
 	for _, p := range w.pats {
 		h, pa := rt.SplitPattern(rt.Instantiate(rnd, p, false))
